@@ -315,8 +315,22 @@ class ccube:
                     print(func, ":=", regions)
 
         if self.parallel:
+
+            def fill_one_cube_in_worker(subcube_dims):
+                # A BaseException (KeyboardInterrupt, SystemExit...) escaping
+                # a pool worker kills the worker without completing the task,
+                # and pool.map would then wait forever. Hand it back instead.
+                try:
+                    fill_one_cube(subcube_dims)
+                except Exception:
+                    raise
+                except BaseException as exc:
+                    return exc
+
             with closing(multiprocessing.pool.ThreadPool(self.poolsize)) as pool:
-                pool.map(fill_one_cube, self.product())
+                for exc in pool.map(fill_one_cube_in_worker, self.product()):
+                    if exc is not None:
+                        raise exc
         else:
             # The only reason to _not_ multithread this is the extra overhead;
             # for example, if there's only one region anyway, or there are a handful
